@@ -152,3 +152,31 @@ Lemma gen_HouseFee creator dep mkt idx amount wc wt fee :
        G_Deposit_Amount := amount; G_Deposit_WithdrawalCount := wc; G_Deposit_TotalWithdrawalAmount := wt |} fee =
   dec_round_int (dec_mulint fee amount).
 Proof. reflexivity. Qed.
+
+(* ---- x/bet/types/payout.go, odds_type.go ---------------------------------------------------------------------------------------------- *)
+(* the decimal odds string of the ticket is the model's Dec value (parsing belongs to the harness): CalculatePayoutProfit is payout_profit *)
+Lemma gen_CalculatePayoutProfit ov amount : K__CalculatePayoutProfit ov amount = payout_profit ov amount.
+Proof.
+  unfold K__CalculatePayoutProfit, K__calculatePayout, K__CalculateDecimalPayout, payout_profit.
+  destruct (0 <? ov) eqn:E1; cbn [negb].
+  - destruct (ov <=? PREC); reflexivity.
+  - apply Z.ltb_ge in E1. assert (E2 : ov <=? PREC = true) by (apply Z.leb_le; unfold PREC; lia). rewrite E2. reflexivity.
+Qed.
+
+Lemma gen_CalculateBetAmountInt ov profit carry : PREC < ov ->
+  K__CalculateBetAmountInt ov profit carry = Some (bet_amount_int ov profit carry).
+Proof.
+  intros H. unfold K__CalculateBetAmountInt, K__CalculateBetAmount, K__calculateBetAmount, K__CalculateDecimalBetAmount, bet_amount_int.
+  assert (E1 : 0 <? ov = true) by (apply Z.ltb_lt; unfold PREC in H; lia). assert (E2 : ov <=? PREC = false) by (apply Z.leb_gt; exact H).
+  rewrite E1, E2. cbn [negb]. reflexivity.
+Qed.
+
+(* ---- x/mint/types/minter.go ------------------------------------------------------------------------------------------------------------ *)
+Lemma gen_NextPhaseProvisions infl step prov trunc supply exclude ph :
+  K_Minter_NextPhaseProvisions {| G_Minter_Inflation := infl; G_Minter_PhaseStep := step; G_Minter_PhaseProvisions := prov; G_Minter_TruncatedTokens := trunc |}
+    supply exclude {| G_Phase_Inflation := ph_infl ph; G_Phase_YearCoefficient := ph_coef ph |} =
+  next_phase_provisions infl supply exclude ph.
+Proof.
+  unfold K_Minter_NextPhaseProvisions, next_phase_provisions, zmax0. cbn [G_Minter_Inflation G_Phase_YearCoefficient].
+  destruct (supply - exclude <? 0) eqn:E; [apply Z.ltb_lt in E; rewrite Z.max_l by lia; reflexivity|apply Z.ltb_ge in E; rewrite Z.max_r by lia; reflexivity].
+Qed.
